@@ -23,8 +23,21 @@ def _assert_repo() -> None:
         raise core.HarnessError(f"aiomysensors imported from {path}, expected {want}")
 
 
-def confirm(mod, v: core.Violation) -> bool:
-    """Re-execute a violation from scratch twice; observations must agree and still violate."""
+def _fresh_process_replay(prop: str, v: core.Violation, tier: str) -> bool:
+    """Replay in a new interpreter (nothing left over from earlier replays in this process): exit 1 = violated."""
+    import subprocess
+
+    path = core.write_replay(prop, v, tier)
+    r = subprocess.run([sys.executable, "-m", "mc.check", prop, "--replay", path], capture_output=True, text=True, timeout=1800)
+    if r.returncode not in (0, 1):
+        raise core.HarnessError(f"replay of {v.key} in a fresh process failed: {r.stdout[-400:]} {r.stderr[-400:]}")
+    return r.returncode == 1
+
+
+def confirm(mod, v: core.Violation, prop: str = "", tier: str = "quick") -> bool:
+    """Re-execute a violation from scratch twice; observations must agree and still violate. When the code
+    under test keeps state across replays inside one process (a module-level cache, a class attribute), two
+    in-process replays can disagree: each replay then gets an interpreter of its own."""
     if not hasattr(mod, "replay"):
         return True
     a = mod.replay(json.loads(json.dumps(core.jsonable(v.replay))))
@@ -35,6 +48,12 @@ def confirm(mod, v: core.Violation) -> bool:
             # controlled choices, e.g. the iteration order of a set of objects) but it violates both times
             print(f"  note: replays of {v.key} differ in detail; both violate the property")
             return True
+        if prop:
+            x, y = _fresh_process_replay(prop, v, tier), _fresh_process_replay(prop, v, tier)
+            if x != y:
+                raise core.HarnessError(f"nondeterministic replay for {v.key}, also in fresh processes")
+            print(f"  note: in-process replays of {v.key} disagree (state kept across replays); two fresh-process replays {'both violate' if x else 'both hold'}")
+            return x
         raise core.HarnessError(f"nondeterministic replay for {v.key}: {str(a)[:600]} vs {str(b)[:600]}")
     return bool(a.get("violated"))
 
@@ -72,15 +91,24 @@ def main(argv: list[str]) -> int:
         for v in report.violations:
             by_key.setdefault(v.key, v)
         new: list[tuple[core.Violation, str]] = []
+        unconfirmed: list = []
         known: dict[str, list[str]] = {}
         for key, v in by_key.items():
             f = core.match_finding(findings, prop, key)
             if f is not None:
                 known.setdefault(f["key"], []).append(key)
                 continue
-            if not confirm(mod, v):
-                raise core.HarnessError(f"violation {key} did not reproduce on replay: {v.what}")
+            if not confirm(mod, v, prop, args.tier):
+                unconfirmed.append((key, v))
+                continue
             new.append((v, core.write_replay(prop, v, args.tier)))
+        if unconfirmed and not new:
+            key, v = unconfirmed[0]
+            raise core.HarnessError(f"violation {key} did not reproduce on replay: {v.what}")
+        for key, v in unconfirmed:
+            # found during the exploration (inside a long-lived worker) but not when replayed alone: the code under
+            # test carries state from one execution to the next; the confirmed violations below stand on their own
+            print(f"  note: {key} was seen during the exploration but does not reproduce when replayed alone; not reported")
         report.coverage.setdefault("violation_keys", sorted(by_key)[:50])
         core.write_evidence(ctx, report, timer(), len(by_key))
         for f in findings:
